@@ -252,7 +252,7 @@ type c05Call struct {
 	// the elements of the calls that succeed
 	expectFail bool
 	twin       *c05Call // SendElement-twice: the second call made with the very same start element value
-	alt    *xSpec // EncodeElement: the value's own encoding (what goes out if the supplied start is ignored)
+	alt        *xSpec   // EncodeElement: the value's own encoding (what goes out if the supplied start is ignored)
 }
 
 type c05Struct struct {
